@@ -1,0 +1,106 @@
+//go:build verif
+
+// Verification contracts (comments only; compiled only with -tags verif).
+// Checked by /verif/bin/govc; see /verif/DESIGN.md.
+
+package standard
+
+//@ // ---- C06: what is signed, with which domain, and whose signature ends up where ----
+//@ // the signature of an account over the signing root of (object root, domain): uninterpreted (BLS is a dependency)
+//@ spec func sigOf(account e2wtypes.Account, root phase0.Root, domain phase0.Domain) phase0.BLSSignature
+//@ // the domain the domain provider computes for a domain type at an epoch (fork version of that epoch)
+//@ spec func domainFor(domainType phase0.DomainType, epoch phase0.Epoch) phase0.Domain
+//@
+//@ type Service
+//@   // established by New
+//@   valid self.domainProvider != nil && self.slotsPerEpoch > 0
+//@
+//@ // signing one root: assumed to return the account's signature over (root, domain); the safety obligations of the
+//@ // body are proved, the value clause stands for the signer libraries
+//@ func (*Service).sign
+//@   trusted
+//@   lockfree
+//@   ensures result1 == nil ==> result0 == sigOf(account, root, domain) && !isnil(account)
+//@   modifies nothing
+//@
+//@ // signing a batch of one kind of account: position k of the answer is account k's signature over root k
+//@ func (*Service).signRootsMulti
+//@   trusted
+//@   lockfree
+//@   requires len(accounts) == len(roots)
+//@   ensures result1 == nil ==> len(result0) == len(accounts) && (forall k int {result0[k]} :: 0 <= k && k < len(accounts) ==> result0[k] == sigOf(accounts[k], roots[k], domain))
+//@   modifies nothing
+//@
+//@ // a mixed batch (ordinary and distributed accounts): assumed to keep position i for account i and root i; the
+//@ // index bookkeeping of this function is NOT proved (the proof attempt with quantified invariants over its two
+//@ // index maps did not discharge within the time limits), only its panic-freedom is
+//@ func (*Service).signRootsByAccountType
+//@   trusted
+//@   lockfree
+//@   ensures result1 == nil ==> len(result0) == len(accounts) && len(accounts) == len(roots)
+//@   ensures result1 == nil ==> forall j int {result0[j]} :: 0 <= j && j < len(accounts) && !isnil(accounts[j]) ==> result0[j] == sigOf(accounts[j], roots[j], domain)
+//@   modifies nothing
+//@
+//@ // ---- per duty: the domain type of that duty at the epoch of that duty, the requested account, the object's root ----
+//@ spec func htrOf(slot phase0.Slot, committeeIndex phase0.CommitteeIndex, blockRoot phase0.Root, sourceEpoch phase0.Epoch, sourceRoot phase0.Root, targetEpoch phase0.Epoch, targetRoot phase0.Root) phase0.Root
+//@
+//@ func (*Service).SignBeaconAttestation
+//@   assumes call Domain#1 (d, err): d == domainFor(arg1, arg2)
+//@   at call Domain#1: assert arg1 == s.beaconAttesterDomainType && arg2 == slot / s.slotsPerEpoch
+//@   // the object hashed carries exactly the requested slot, committee, block root and checkpoints
+//@   at call HashTreeRoot#1: assert attestation.Slot == slot && attestation.Index == committeeIndex && attestation.BeaconBlockRoot == blockRoot && attestation.Source != nil && attestation.Source.Epoch == sourceEpoch && attestation.Source.Root == sourceRoot && attestation.Target != nil && attestation.Target.Epoch == targetEpoch && attestation.Target.Root == targetRoot
+//@   assumes call HashTreeRoot#1 (r, err): r == htrOf(slot, committeeIndex, blockRoot, sourceEpoch, sourceRoot, targetEpoch, targetRoot)
+//@   at call sign#1: assert arg2 == account && arg3 == htrOf(slot, committeeIndex, blockRoot, sourceEpoch, sourceRoot, targetEpoch, targetRoot) && arg4 == domainFor(s.beaconAttesterDomainType, slot / s.slotsPerEpoch)
+//@   // a slashing-protecting signer is handed the same values and the same domain
+//@   at call SignBeaconAttestation#1: assert arg1 == slot && arg2 == committeeIndex && arg4 == sourceEpoch && arg6 == targetEpoch
+//@   assumes call SignBeaconAttestation#1 (sg, err): err == nil ==> !isnil(sg)
+//@
+//@ func (*Service).SignBeaconBlockProposal
+//@   assumes call Domain#1 (d, err): d == domainFor(arg1, arg2)
+//@   at call Domain#1: assert arg1 == s.beaconProposerDomainType && arg2 == slot / s.slotsPerEpoch
+//@   at call HashTreeRoot#1: assert header.Slot == slot && header.ProposerIndex == proposerIndex && header.ParentRoot == parentRoot && header.StateRoot == stateRoot && header.BodyRoot == bodyRoot
+//@   at call sign#1: assert arg2 == account && arg4 == domainFor(s.beaconProposerDomainType, slot / s.slotsPerEpoch)
+//@   assumes call SignBeaconProposal#1 (sg, err): err == nil ==> !isnil(sg)
+//@
+//@ func (*Service).SignRANDAOReveal
+//@   assumes call Domain#1 (d, err): d == domainFor(arg1, arg2)
+//@   at call Domain#1: assert arg1 == s.randaoDomainType && arg2 == slot / s.slotsPerEpoch
+//@   at call sign#1: assert arg2 == account && arg4 == domainFor(s.randaoDomainType, slot / s.slotsPerEpoch)
+//@
+//@ func (*Service).SignSlotSelections
+//@   assumes call Domain#1 (d, err): d == domainFor(arg1, arg2)
+//@   at call Domain#1: assert arg1 == s.selectionProofDomainType && arg2 == slot / s.slotsPerEpoch
+//@   at call signRootsByAccountType#1: assert arg2 == accounts && len(arg3) == len(accounts) && arg4 == domainFor(s.selectionProofDomainType, slot / s.slotsPerEpoch)
+//@
+//@ func (*Service).SignSyncCommitteeRoots
+//@   assumes call Domain#1 (d, err): d == domainFor(arg1, arg2)
+//@   at call Domain#1: assert s.syncCommitteeDomainType != nil && arg1 == deref(s.syncCommitteeDomainType) && arg2 == epoch
+//@   // every account signs the requested root
+//@   at call signRootsByAccountType#1: assert arg2 == accounts && len(arg3) == len(accounts) && (forall k int :: 0 <= k && k < len(arg3) ==> arg3[k] == root) && arg4 == domainFor(deref(s.syncCommitteeDomainType), epoch)
+//@   loop 1
+//@     invariant -1 <= rangeindex && rangeindex < len(accounts) && len(roots) == len(accounts)
+//@     invariant forall k int :: 0 <= k && k <= rangeindex ==> roots[k] == root
+//@
+//@ func (*Service).SignSyncCommitteeSelections
+//@   // one subcommittee index per account (the messenger builds both lists together)
+//@   requires len(subcommitteeIndices) == len(accounts)
+//@   assumes call Domain#1 (d, err): d == domainFor(arg1, arg2)
+//@   at call Domain#1: assert s.syncCommitteeSelectionProofDomainType != nil && arg1 == deref(s.syncCommitteeSelectionProofDomainType) && arg2 == slot / s.slotsPerEpoch
+//@
+//@ func (*Service).SignAggregateAndProof
+//@   assumes call Domain#1 (d, err): d == domainFor(arg1, arg2)
+//@   at call Domain#1: assert arg1 == s.aggregateAndProofDomainType && arg2 == slot / s.slotsPerEpoch
+//@   at call sign#1: assert arg2 == account && arg3 == aggregateAndProofRoot && arg4 == domainFor(s.aggregateAndProofDomainType, slot / s.slotsPerEpoch)
+//@
+//@ func (*Service).SignContributionAndProofs
+//@   // the aggregator hands over at least one contribution, none of them empty
+//@   requires len(contributionAndProofs) > 0 && (forall k int :: 0 <= k && k < len(contributionAndProofs) ==> contributionAndProofs[k] != nil && contributionAndProofs[k].Contribution != nil)
+//@   assumes call Domain#1 (d, err): d == domainFor(arg1, arg2)
+//@   at call Domain#1: assert s.contributionAndProofDomainType != nil && arg1 == deref(s.contributionAndProofDomainType)
+//@
+//@ func (*Service).SignValidatorRegistration
+//@   // registrations are signed with the builder domain of the genesis fork, which has no epoch
+//@   at call GenesisDomain#1: assert s.applicationBuilderDomainType != nil && arg1 == deref(s.applicationBuilderDomainType)
+//@   assumes call GenesisDomain#1 (d, err): d == genesisDomainFor(arg1)
+//@   at call sign#1: assert arg2 == account && arg4 == genesisDomainFor(deref(s.applicationBuilderDomainType))
+//@ spec func genesisDomainFor(domainType phase0.DomainType) phase0.Domain
